@@ -195,7 +195,7 @@ def run(prop, tier):
             "classes_of_other_driver_property_seen": maps["other_property_classes"],
             "determinism_gate": {"runs_compared": compared, "mismatches": len(mism), "worker_counts": [nw, 2]},
             "components": {"real": ["driver.c", "util.c (from /repo working tree, 3 configure-generated config.h)"],
-                           "stub": ["kernel: posix_spawnp, pipe, fcntl, close, wait, waitpid, kill, mkstemp, unlink, readlink, exit, atexit", "tools: cpp, cproc-qbe, qbe, as, ld as state machines"]},
+                           "stub": ["kernel: posix_spawnp, posix_spawn_file_actions_*, pipe, fcntl, close, wait, waitpid (WUNTRACED), kill, mkstemp, unlink, access, readlink, exit, atexit, malloc/realloc/strdup (faulted in the relaxed configuration only)", "tools: cpp, cproc-qbe, qbe, as, ld as state machines (option grammar, -o, operand or stdin, failure plans, stop/continue)"]},
         }
         if prop == "C18":
             cells = maps["cells"]
